@@ -16,6 +16,7 @@ CONSTANTS
   AllowFail = TRUE
   AllowNoop = FALSE
   BootAll = TRUE
+  MaxRank = 12
   AllRanks = FALSE
   AllowBad = FALSE
   PubWeight = 3
